@@ -21,5 +21,5 @@ for pid in sorted(P):
         l2 = "%d / %d" % (q, t)
     else:
         l2 = "-"
-    extra = " + Verus (21 fns)" if p.get("engine_extra") else ""
+    extra = {"verus_trace": " + Verus (21 fns)", "native_limits": " + 2 native runs (bounded, not counted)"}.get(p.get("engine_extra"), "")
     print("| %s | %s | %d%s | %d | %s | %s |" % (pid, p["level"], len(comp), extra, len(bnd), l2, ", ".join(fns)[:400]))
